@@ -330,6 +330,9 @@ class SymReal:
     def sin(self):
         return SymReal(SIN(self.t))
 
+    def hypot(self, o):
+        return (self * self + (o * o if isinstance(o, SymReal) else SymReal(_num(o) * _num(o)))).sqrt()
+
     def rint(self):
         c = ctx()
         k = c.fresh("rint", "int")
@@ -534,6 +537,14 @@ class Path:
         return self.ctx.hyps()
 
 
+def _proxy_limitation(e: BaseException) -> bool:
+    if not isinstance(e, (TypeError, AttributeError, NotImplementedError, ValueError)):
+        return False
+    msg = str(e)
+    return any(k in msg for k in ("SymReal", "SymBool", "object arrays are not supported", "dtype('O')", "not supported for the input types",
+                                  "loop of ufunc does not support", "has no callable", "must be real number, not"))
+
+
 def explore(run: Callable[[Ctx], Any], assumptions=(), max_paths=512,
             feas_timeout_ms=2000, catch=(Exception,)) -> List[Path]:
     """Enumerate every feasible path of ``run`` (a closure that builds fresh
@@ -553,6 +564,10 @@ def explore(run: Callable[[Ctx], Any], assumptions=(), max_paths=512,
         except SymError:
             raise
         except catch as e:  # the real code raised on this path
+            if _proxy_limitation(e):
+                # not a behaviour of the code under check: the symbolic proxies do not support an operation
+                # (e.g. a numpy ufunc without an object loop) -> undecided, never an alarm
+                raise SymError(f"operation not supported on symbolic values: {type(e).__name__}: {e}")
             paths.append(Path(c, None, e))
         stack.extend(c.alternatives)
         if len(paths) > max_paths:
